@@ -1056,6 +1056,116 @@ fn mode_panic_storm(r: &mut Runner) {
     }
 }
 
+
+/// A caller is a caller: to a queuing sink the thread that calls `emit` may itself be the background thread of another
+/// queuing sink - (a) one queue feeding a second queue, (b) an error handler that reports failures through a second
+/// queuing sink. The inner queue's answers depend on its own room only (C10: an unbounded / far-from-full queue accepts),
+/// and what it accepted reaches its wrapped sink once and in order (C08).
+fn mode_compose(r: &mut Runner) {
+    use std::sync::Mutex as M;
+    struct Relay {
+        inner: QueuingMetricSink,
+        results: Arc<M<Vec<(String, Result<usize, String>)>>>,
+    }
+    impl cadence::MetricSink for Relay {
+        fn emit(&self, m: &str) -> std::io::Result<usize> {
+            let res = self.inner.emit(m);
+            self.results.lock().unwrap_or_else(|e| e.into_inner()).push((m.to_string(), res.as_ref().map(|n| *n).map_err(|e| e.to_string())));
+            res
+        }
+    }
+    struct AlwaysFails;
+    impl cadence::MetricSink for AlwaysFails {
+        fn emit(&self, m: &str) -> std::io::Result<usize> {
+            Err(std::io::Error::new(std::io::ErrorKind::ConnectionRefused, m.to_string()))
+        }
+    }
+    for variant in 0..6u64 {
+        let n = [40usize, 300, 120, 40, 300, 120][variant as usize];
+        let inner_cap = if variant % 3 == 1 { Some(4096usize) } else { None };
+        let through_handler = variant >= 3;
+        let sh = Shared::new(false);
+        set_current(Some(sh.clone()));
+        let inner = match inner_cap {
+            Some(c) => QueuingMetricSink::with_capacity(GatedSink { sh: sh.clone() }, c),
+            None => QueuingMetricSink::from(GatedSink { sh: sh.clone() }),
+        };
+        let results: Arc<M<Vec<(String, Result<usize, String>)>>> = Arc::new(M::new(Vec::new()));
+        let sid = r.sid + variant;
+        let texts: Vec<String> = (0..n).map(|k| metric_text(&format!("comp{}.n{}", sid, k), &Out::Ok, 0)).collect();
+        let outer = if through_handler {
+            // every metric fails in the outer queue's wrapped sink; the handler passes its text on through the inner queue
+            let (inner2, results2) = (std::panic::AssertUnwindSafe(inner.clone()), std::panic::AssertUnwindSafe(results.clone()));
+            QueuingMetricSink::builder()
+                .with_error_handler(move |e: std::io::Error| {
+                    let m = e.get_ref().map(|x| x.to_string()).unwrap_or_default();
+                    let res = inner2.emit(&m);
+                    results2.lock().unwrap_or_else(|e| e.into_inner()).push((m, res.map_err(|e| e.to_string())));
+                })
+                .build(AlwaysFails)
+        } else {
+            QueuingMetricSink::from(Relay { inner: inner.clone(), results: results.clone() })
+        };
+        let mut outer_refused = 0usize;
+        for t in &texts {
+            if panics::guard(|| outer.emit(t)).map(|x| x.is_err()).unwrap_or(true) {
+                outer_refused += 1;
+            }
+        }
+        // come to rest: every metric the outer queue accepted has been passed on (result recorded) ...
+        let t0 = std::time::Instant::now();
+        while results.lock().unwrap_or_else(|e| e.into_inner()).len() < n - outer_refused && t0.elapsed().as_secs() < 60 {
+            std::thread::yield_now();
+        }
+        let res: Vec<(String, Result<usize, String>)> = results.lock().unwrap_or_else(|e| e.into_inner()).clone();
+        let accepted_by_inner: Vec<String> = res.iter().filter(|(_, r)| r.is_ok()).map(|(m, _)| m.clone()).collect();
+        // ... and everything the inner queue accepted has reached the recording sink
+        let waited = await_log(&sh, |st| st.log.iter().filter(|e| matches!(e, Ev::Exit { .. })).count() >= accepted_by_inner.len());
+        let delivered: Vec<String> = sh.st.lock().unwrap_or_else(|e| e.into_inner()).log.iter().filter_map(|e| if let Ev::Enter { metric, .. } = e { Some(metric.clone()) } else { None }).collect();
+        let label = format!("compose {} inner capacity {}", if through_handler { "handler->queue" } else { "queue->queue" }, inner_cap.map(|c| c.to_string()).unwrap_or_else(|| "unbounded".into()));
+        {
+            let mut rep = r.rep();
+            rep.eval();
+            rep.obs(if through_handler { "emits_made_by_an_error_handler_on_a_queue_thread" } else { "emits_made_by_another_queues_thread" }, res.len() as u64);
+            rep.distinct(&format!("compose|{}|{:?}|{}", through_handler, inner_cap, n));
+            let mut report = |props: &[&str], rule: &str, class: &str, detail: String| {
+                for p in props {
+                    if *p == r.prop {
+                        rep.violation(Violation { property: p.to_string(), rule: rule.into(), class: class.into(), detail: format!("[{}] {}", label, detail), replay_args: r.args.to_vec_with(&[]), trace: Json::Null });
+                    }
+                }
+            };
+            if outer_refused > 0 {
+                report(&["C10"], "R5", "false-refusal", format!("{} of {} emits on an unbounded queuing sink were refused", outer_refused, n));
+            } else if res.len() < n {
+                report(&["C08"], "R1", "accepted-never-delivered", format!("the outer queue accepted {} metrics but passed on only {}", n, res.len()));
+            }
+            if let Some((m, Err(e))) = res.iter().find(|(_, r)| r.is_err()) {
+                report(&["C10"], "R5", "false-refusal", format!("emit({:?}) made on the background thread of another queuing sink was refused with {:?} although the queue (capacity {:?}) holds at most {} entries", m, e, inner_cap, n));
+            }
+            if let Some((m, Ok(k))) = res.iter().find(|(m, r)| matches!(r, Ok(k) if *k != m.len())) {
+                report(&["C10"], "R5", "return-count", format!("emit({:?}) returned Ok({}) for {} bytes", m, k, m.len()));
+            }
+            match waited {
+                Err(st) if st.is_verdict() => report(&["C08"], "R1", "accepted-never-delivered", format!("{} accepted by the inner queue, {} delivered: {}", accepted_by_inner.len(), delivered.len(), st.describe())),
+                Err(_) => rep.inconclusive(format!("{}: watchdog while waiting for the inner queue", label)),
+                Ok(()) => {
+                    if delivered != accepted_by_inner {
+                        let at = delivered.iter().zip(accepted_by_inner.iter()).position(|(a, b)| a != b).unwrap_or(delivered.len().min(accepted_by_inner.len()));
+                        report(&["C08"], "R2", "out-of-order", format!("the inner queue's wrapped sink received {} metrics, {} were accepted; first difference at #{}", delivered.len(), accepted_by_inner.len(), at));
+                    }
+                }
+            }
+        }
+        drop(outer);
+        drop(inner);
+        let _ = await_log(&sh, |st| st.log.iter().any(|e| matches!(e, Ev::SinkDrop { .. })));
+        let _ = await_no_library_thread();
+        set_current(None);
+    }
+    r.sid += 6;
+}
+
 /// The last handle is dropped while the wrapped sink is slow but alive: a pacer thread lets one queued metric through
 /// every 10 ms for as long as the drop has not returned. Dropping never waits - neither for the backlog nor for a grace
 /// period: the call watchdog decides (the dropping thread found waiting sample after sample, or burning CPU, inside drop).
@@ -1176,6 +1286,7 @@ fn main() {
             "outcomes" => mode_outcomes(&mut runner),
             "panic-storm" => mode_panic_storm(&mut runner),
             "slow-drop" => mode_slow_drop(&mut runner),
+            "compose" => mode_compose(&mut runner),
             "seq-one" => {
                 let sc = Scenario {
                     cap: parse_cap(&args.str("cap", "unbounded")),
